@@ -531,9 +531,12 @@ with the zipper model on the abstraction of the same pre-state (refinement, chec
 def runArena (coll : String) (op : Toks) (a : Arena Int) : String :=
   let base := (coll.drop 1).toString     -- amap -> map
   let isKey := base == "key"
-  match a.abs with
+  -- `absP` / `garbageOK` / `zeroOK`: the hypotheses `RepSt` / `RepStG` of the arena-level theorems, decided on the
+  -- real pre-arena (sound by `absP_sound`, `repCheck_sound`)
+  match a.absP with
   | none => "wf=0:abs | out=FAULT | st=- | tr="
   | some st =>
+    if isKey && !(a.garbageOK st.tree.slots && a.zeroOK) then "wf=0:garbage | out=FAULT | st=- | tr=" else
     let z := runTree base op st none
     match arenaOp isKey op a with
     | none => s!"wf={if fieldOf "out" z == "FAULT" then "1" else "0:refine-fault"} | out=FAULT | st=- | tr="
